@@ -974,7 +974,9 @@ FOOTPRINT = {
     'C14': [(VQ, 'kmeans'), (VQ, 'batched_bincount'), (VQ, f'{_EU}.init_embed_'), (VQ, f'{_CO}.init_embed_')] + _SAMPLE + _CB_FWD,
     'C15': _INITS + [(VQ, f'{_EU}.replace'), (VQ, f'{_CO}.replace'), (VQ, f'{_EU}.init_embed_'), (VQ, f'{_CO}.init_embed_'), (VQ, f'{_VQc}.update_in_place_optimizer')] + _SAMPLE,
     'C16': _DIST + [(VQ, 'kmeans'), (VQ, f'{_EU}.__init__'), (VQ, f'{_CO}.__init__'), (VQ, f'{_EU}.update_ema'), (VQ, f'{_CO}.update_ema'), (RVQ, 'get_maybe_sync_seed'),
-                    (LFQF, 'maybe_distributed_mean')] + _CB_FWD,
+                    (LFQF, 'maybe_distributed_mean'), (VQ, 'is_distributed'), (LFQF, 'is_distributed'), (RVQ, 'is_distributed'), (RFSQ, 'is_distributed'), (RLFQ, 'is_distributed'),
+                    (RSVQ, 'is_distributed'), (RFSQ, 'get_maybe_sync_seed'), (RLFQ, 'get_maybe_sync_seed'), (RSVQ, 'get_maybe_sync_seed'), (VQ, f'{_VQc}.__init__'),
+                    (RVQ, 'GroupedResidualVQ.forward'), (RPQ, 'RandomProjectionQuantizer.forward')] + _CB_FWD,
     'C17': [(VQ, 'orthogonal_loss_fn'), (VQ, f'{_VQc}.forward'), (SIMVQ, 'SimVQ.forward'), (LFQF, 'LFQ.forward'), (LFQF, 'entropy'), (LFQF, 'log'), (LQ, 'LatentQuantize.quantization_loss'),
             (LQ, 'LatentQuantize.commitment_loss'), (LQ, 'LatentQuantize.forward'), (RVQ, 'ResidualVQ.forward'), (RLFQ, 'ResidualLFQ.forward'), (RSVQ, 'ResidualSimVQ.forward')],
     'C18': _ROT + [(VQ, 'log'), (VQ, 'cdist'), (VQ, 'laplace_smoothing'), (VQ, f'{_EU}.update_ema'), (VQ, f'{_CO}.update_ema'), (VQ, 'kmeans'), (VQ, 'gumbel_noise'), (VQ, 'gumbel_sample'),
